@@ -880,6 +880,49 @@ func TestVerifParseStandin(t *testing.T) {
 			}
 		}
 	}
+	// annotation shapes: every combination of a member list, a struct annotation (well-formed or
+	// not) and a wrapper must return (value or error) without panic
+	for _, types := range []string{"", "i", "is", "(i)", "[s]i"} {
+		for _, ann := range []string{"", "<>", "<a>", "<a,b>", "<a,b,c>", "<a,b,c,d>", "<,>", "<a,>", "<,a>", "<a", "a>", "<a,b", "<a b>"} {
+			for _, wrap := range [][2]string{{"", ""}, {"[", "]"}, {"{s", "}"}, {"(", ")"}, {"(", ")<a,b>"}} {
+				sig := wrap[0] + "(" + types + ")" + ann + wrap[1]
+				func() {
+					defer func() {
+						if p := recover(); p != nil {
+							fmt.Fprintf(os.Stdout, "VERIF-STANDIN-FAIL panic on %%q: %%v\n", sig, p)
+						}
+					}()
+					Parse(sig)
+					count++
+				}()
+			}
+		}
+	}
+	// malformed nestings (unclosed / unopened / truncated): failing parses must stay linear too
+	opens := []string{"(", "[", "{", "{s", "[(", "([", "({s", "((i)<"}
+	for _, o := range opens {
+		for d := 1; d <= maxDepth+8; d++ {
+			for _, tail := range []string{"", "i", "i)", "<a,b"} {
+				sig := strings.Repeat(o, d) + tail
+				t0 := time.Now()
+				func() {
+					defer func() {
+						if p := recover(); p != nil {
+							fmt.Fprintf(os.Stdout, "VERIF-STANDIN-FAIL panic on %%q: %%v\n", sig, p)
+						}
+					}()
+					Parse(sig)
+				}()
+				el := time.Since(t0)
+				count++
+				if el > 200*time.Millisecond+time.Duration(d)*5*time.Millisecond {
+					fmt.Fprintf(os.Stdout, "VERIF-STANDIN-FAIL malformed nesting depth %%d of %%q (tail %%q) took %%v (budget 200ms+5ms*depth): super-linear\n", d, o, tail, el)
+					d = 1 << 20
+					break
+				}
+			}
+		}
+	}
 	fmt.Fprintf(os.Stdout, "VERIF-STANDIN-OK cases=%%d\n", count)
 }
 `
@@ -915,7 +958,7 @@ func runBoundedStandins(prop, tier, repo, verif string, seed int, violate func(s
 	res := map[string]interface{}{
 		"label":    "bounded",
 		"function": "meta/signature.Parse (goparsec combinator tree, outside the verifier's reach)",
-		"bound":    fmt.Sprintf("every string of length <= %d over a 27-character signature alphabet must return without panic; for each bracket kind, nesting depth 1..%d must parse within 200ms + 5ms*depth", maxLen, maxDepth),
+		"bound":    fmt.Sprintf("every string of length <= %d over a 27-character signature alphabet, and 325 tuple/struct annotation shapes (member list x annotation x wrapper), must return without panic; for each bracket kind, well-formed nesting depth 1..%d and malformed (unclosed / truncated) nestings up to depth %d+8 must return within 200ms + 5ms*depth", maxLen, maxDepth, maxDepth),
 		"seconds":  time.Since(t0).Seconds(),
 	}
 	var fails []string
